@@ -1,4 +1,286 @@
-From Coq Require Import List ZArith.
-From Muduo Require Import C16_Model.
-Example C16_stub : params_ok current_params = true.
+(* Properties_C16: every log record handed to the back-end is written exactly once, whole, in order.
+
+   Models (C16_Model.v, read off muduo/base/FileUtil.cc, LogFile.cc, AsyncLogging.cc):
+   (i)  AppendFile::append (`af_loop`: every pattern of short fwrite_unlocked results / stream errors is
+        an input), LogFile (`lf_run`: appends, flushes, rolls; every time(NULL) result is an input);
+   (ii) AsyncLogging in the monitor style of DESIGN 3.3: `reach (init progs) s` = any number of front-end
+        threads with arbitrary programs (lists of records of arbitrary lengths below the buffer size),
+        one back-end thread cut at its park points (start, lock, timed wait, announce, each write, flush,
+        the lock of the final drain, exit), stop() = store + join; a label picks who moves, so `reach`
+        ranges over ALL schedules, including every placement of stop() relative to the back-end's phases
+        and every time at which the timed wait returns.
+   The shape facts (is there a drain after the loop; `>` of the fit test, of the roll guard; the literals
+   25 / 2 / 2) are regenerated from the current /repo into Gen_C16.v on every run; the model follows
+   them, the theorems name them as premises, and the last theorems discharge the premises for the
+   current tree by computation - so a change of the source that invalidates a premise breaks exactly
+   those theorems. *)
+From Coq Require Import List ZArith Bool Arith Sorted.
+Import ListNotations.
+From Muduo Require Import Gen_Consts Gen_C16 C16_Model C16_Proofs.
+Local Open Scope Z_scope.
+
+(* ------------------------------------------------------------------ (i) AppendFile, LogFile *)
+
+(* AppendFile::append, for EVERY sequence of fwrite_unlocked results: what the stream got is a prefix of
+   the record, in order; it is the whole record and written = len unless the stream reported an error
+   (then, and only then, a strict prefix) *)
+Theorem C16_appendfile_whole_record : forall (A : Type) (env : list wres) (data : list A),
+  match af_loop env data with
+  | (acc, w, er) =>
+      exists tail, data = acc ++ tail /\
+        (er = false -> tail = [] /\ w = length data) /\
+        (er = true -> tail <> [])
+  end.
+Proof. exact af_loop_spec. Qed.
+Print Assumptions C16_appendfile_whole_record.
+
+(* for all roll sizes, flush intervals, check periods, clocks (any time() results, also going backwards),
+   short-write patterns and op sequences: every file is the concatenation of a group of WHOLE chunks (a
+   chunk = what one append handed to the stream), the groups in creation order are the chunks in append
+   order - so a record is never split across two files and the files concatenated in creation order are
+   the appended sequence; without stream errors the chunks are the records themselves *)
+Theorem C16_files_concat : forall (A : Type) (c : cfg) (now : Z) (ops : list (sop_t A)),
+  0 < now ->
+  let s := lf_run c (lf_new now) ops in
+  exists groups : list (list (list A)),
+    Forall2 (fun f g => snd f = concat g) (files_in_order s) groups /\
+    concat groups = flat_map (chunk_of A) ops /\
+    concat (map snd (files_in_order s)) = concat (flat_map (chunk_of A) ops).
+Proof. exact files_concat_groups. Qed.
+Print Assumptions C16_files_concat.
+
+Theorem C16_chunks_are_records : forall (A : Type) (ops : list (sop_t A)),
+  forallb (fun o => negb (op_error o)) ops = true ->
+  flat_map (chunk_of A) ops = flat_map (@op_record A) ops.
+Proof. exact chunks_no_error. Qed.
+Print Assumptions C16_chunks_are_records.
+
+(* a new file at most once per second: rollFile creates a file only when the clock is strictly past
+   the previous creation second, hence the creation seconds (= the file names) strictly increase in
+   creation order; premise = the regenerated comparison operator of `now > lastRoll_` *)
+Theorem C16_roll_at_most_once_per_second : forall (A : Type),
+  LogFile_roll_guard_is_gt = true ->
+  (forall (c : cfg) (now : Z) (ops : list (sop_t A)),
+     StronglySorted Z.lt (map fst (files_in_order (lf_run c (@lf_new A now) ops)))) /\
+  (forall (now : Z) (s : lf A),
+     snd (roll now s) = true -> lastRoll s < now /\ lastRoll (fst (roll now s)) = now).
+Proof. exact (fun A H => conj (names_increasing A H) (roll_guard A H)). Qed.
+Print Assumptions C16_roll_at_most_once_per_second.
+
+(* ------------------------------------------------------------------ (ii) AsyncLogging *)
+
+(* for all thread counts, programs, record sizes below the buffer size, schedules: in every reachable
+   state
+   - every appended record is in exactly one place, in append order: taken by the back-end, queued in
+     buffers_, or in currentBuffer_ (nothing lost, nothing duplicated, whole records: a record is an
+     atom of the model because it is copied inside one critical section);
+   - the appends of thread t, in the order of the critical sections, followed by what t still has to
+     append, are t's program: per-thread order;
+   - what the back-end has done to the file/stderr plus what it is about to do for the batch in work is
+     the rendering of the batches it took, in order (+ the final batch and flush once it has left the loop);
+   - hence the records handed to the file so far, plus those about to be, are the kept buffers of the
+     batches in order: the append order minus the buffers erased by the valve *)
+Theorem C16_async_exactly_once_in_order :
+  forall (R : Type) (rlen : R -> Z) (P : params),
+  params_ok P = true -> p_fit_gt P = true ->
+  forall (progs0 : list (list R)) (s : ast R),
+  Forall (Forall (fun r => rlen r < p_cap P)) progs0 ->
+  reach R rlen P (init progs0) s ->
+  hist (gh s) = taken (gh s) ++ flat (bufs (sh s)) ++ recs (cur (sh s)) /\
+  (forall t, per_thread t (gh s) ++ nth t (progs s) [] = nth t progs0 []) /\
+  length (owner (gh s)) = length (hist (gh s)) /\
+  out (gh s) ++ pending R P (pc (be s)) = flat_map (render_batch R P) (batches (gh s)) ++ fin_part R s /\
+  written_of (out (gh s)) ++ written_of (pending R P (pc (be s))) =
+    flat (flat_map (kept_of R P) (batches (gh s))) ++ (if pc_final (pc (be s)) then flat (fbatch (gh s)) else []) /\
+  (pc_final (pc (be s)) = false -> fbatch (gh s) = []).
+Proof. exact async_exactly_once. Qed.
+Print Assumptions C16_async_exactly_once_in_order.
+
+(* records are discarded only by the valve: the buffers erased so far (+ those of the batch in work) are
+   exactly `dropped_of` of the batches = buffers p_keep+1..n of a batch with more than p_thr buffers; the
+   rendering of such a batch starts with the announcement on stderr and in the file carrying that number;
+   a batch within the threshold is written entirely *)
+Theorem C16_drop_only_announced :
+  forall (R : Type) (rlen : R -> Z) (P : params),
+  params_ok P = true -> p_fit_gt P = true ->
+  (forall (progs0 : list (list R)) (s : ast R),
+     Forall (Forall (fun r => rlen r < p_cap P)) progs0 ->
+     reach R rlen P (init progs0) s ->
+     dropped (gh s) ++ dropping R P (pc (be s)) = flat_map (dropped_of R P) (batches (gh s)) /\
+     out (gh s) ++ pending R P (pc (be s)) = flat_map (render_batch R P) (batches (gh s)) ++ fin_part R s /\
+     (pc (be s) = PDone ->
+        out (gh s) = final_out R P (gh s) /\ dropped (gh s) = flat_map (dropped_of R P) (batches (gh s)))) /\
+  (forall batch : list (buf R),
+     kept_of R P batch ++ dropped_of R P batch = batch /\
+     (((length batch <= p_thr P)%nat /\ dropped_of R P batch = [] /\ kept_of R P batch = batch /\
+         render_batch R P batch = map OBuf batch ++ [OFlush]) \/
+      ((p_thr P < length batch)%nat /\ dropped_of R P batch = skipn (p_keep P) batch /\ dropped_of R P batch <> [] /\
+         kept_of R P batch = firstn (p_keep P) batch /\ length (kept_of R P batch) = p_keep P /\
+         render_batch R P batch =
+           [OStderr (length (dropped_of R P batch)); OFileAnn (length (dropped_of R P batch))]
+             ++ map OBuf (kept_of R P batch) ++ [OFlush]))).
+Proof.
+  exact (fun R rlen P HP Hfit =>
+           conj (drop_only_announced R rlen P HP Hfit)
+                (fun batch => conj (kept_dropped R P batch) (render_cases R P HP batch))).
+Qed.
+Print Assumptions C16_drop_only_announced.
+
+(* no buffer ever holds kLargeBuffer bytes or more (so FixedBuffer::append never silently discards), the
+   recycling asserts of threadFunc hold (fault = false; newBuffer1/newBuffer2 present at every loop head
+   and at the final lock), an iteration of the loop writes at most p_thr buffers, and nextBuffer_ is
+   missing only while a full buffer is queued *)
+Theorem C16_buffers_bounded :
+  forall (R : Type) (rlen : R -> Z) (P : params),
+  params_ok P = true -> p_fit_gt P = true ->
+  forall (progs0 : list (list R)) (s : ast R),
+  Forall (Forall (fun r => rlen r < p_cap P)) progs0 ->
+  reach R rlen P (init progs0) s ->
+  fault (be s) = false /\ blen (cur (sh s)) < p_cap P /\ Forall (fun b => blen b < p_cap P) (bufs (sh s)) /\
+  (nxt (sh s) = false -> bufs (sh s) <> [] \/ pc_final (pc (be s)) = true) /\
+  match pc (be s) with
+  | PStart | PLock | PWait | PFinalLock => nb1 (be s) = true /\ nb2 (be s) = true
+  | PWrite todo false => (length todo <= p_thr P)%nat /\ (1 <= twn (be s))%nat
+  | _ => True
+  end.
+Proof. exact buffers_bounded. Qed.
+Print Assumptions C16_buffers_bounded.
+
+(* stop(): with the drain after the loop, for ALL schedules: when stop() has returned the back-end has
+   finished, every record appended before the call is in a batch it took, every batch was rendered
+   (written, minus announced drops), the final batch written entirely, and the last event is a flush *)
+Theorem C16_stop_flushes :
+  forall (R : Type) (rlen : R -> Z) (P : params),
+  params_ok P = true -> p_fit_gt P = true ->
+  forall (progs0 : list (list R)) (s : ast R),
+  p_drain P = true ->
+  Forall (Forall (fun r => rlen r < p_cap P)) progs0 ->
+  reach R rlen P (init progs0) s ->
+  stop_flushed_full R P s.
+Proof. exact stop_flushes. Qed.
+Print Assumptions C16_stop_flushes.
+
+(* without the drain (the tree before commit 440cd2b, finding F-8) the last sentence of the property is
+   false: the schedule of corpus/C16/f8_stop_loses_tail.case *)
+Theorem C16_stop_flushes_refuted :
+  exists progs0 sched s,
+    run nat f8_rlen (with_drain false current_params) (init progs0) sched = Some s /\
+    joined (gh s) = true /\ ~ stop_flushed nat s.
+Proof. exact stop_flushes_refuted. Qed.
+Print Assumptions C16_stop_flushes_refuted.
+
+(* AsyncLogging on top of LogFile: if the events the back-end produced are performed as LogFile
+   operations (a buffer = one append of its bytes), with any clock, roll size, short-write pattern, and
+   the stream reports no error, then the files in creation order concatenated are the bytes of the events
+   in order and every file consists of whole appends *)
+Theorem C16_async_files : forall (R A : Type) (bytes : R -> list A) (c : cfg) (now : Z)
+    (es : list (oev R)) (ops : list (sop_t A)) (chs : list (list A)),
+  0 < now -> evs_ops R A bytes es ops chs ->
+  forallb (fun o => negb (op_error o)) ops = true ->
+  let s := lf_run c (lf_new now) ops in
+  concat (map snd (files_in_order s)) = concat chs /\
+  exists groups : list (list (list A)),
+    Forall2 (fun f g => snd f = concat g) (files_in_order s) groups /\
+    concat groups = flat_map (@op_record A) ops.
+Proof. exact compose_files. Qed.
+Print Assumptions C16_async_files.
+
+(* ------------------------------------------------------------------ the current tree *)
+(* the premises hold of the constants regenerated from the current sources (closed computations) *)
+Theorem C16_current_facts :
+  params_ok current_params = true /\ p_fit_gt current_params = true /\ LogFile_roll_guard_is_gt = true /\
+  p_cap current_params = LogStream_kLargeBuffer /\
+  (forall n, n <= LogStream_kSmallBuffer -> n < p_cap current_params).
+Proof. exact (conj eq_refl (conj eq_refl (conj eq_refl (conj eq_refl (small_lines eq_refl))))). Qed.
+Print Assumptions C16_current_facts.
+
+(* the shape the CURRENT sources have (generated fact AsyncLogging_drain_after_loop): proved for all
+   schedules if the drain is there, refuted by the witness if it is not *)
+Theorem C16_current_tree :
+  current_verdict AsyncLogging_drain_after_loop /\
+  with_drain AsyncLogging_drain_after_loop current_params = current_params.
+Proof. exact (current_tree eq_refl eq_refl). Qed.
+Print Assumptions C16_current_tree.
+
+(* the theorems above for the current constants and every record a LogStream line can be
+   (length <= kSmallBuffer), no premise left *)
+Theorem C16_current_exactly_once :
+  forall (R : Type) (rlen : R -> Z) (progs0 : list (list R)) (s : ast R),
+  Forall (Forall (fun r => rlen r <= LogStream_kSmallBuffer)) progs0 ->
+  reach R rlen current_params (init progs0) s ->
+  hist (gh s) = taken (gh s) ++ flat (bufs (sh s)) ++ recs (cur (sh s)) /\
+  (forall t, per_thread t (gh s) ++ nth t (progs s) [] = nth t progs0 []) /\
+  written_of (out (gh s)) ++ written_of (pending R current_params (pc (be s))) =
+    flat (flat_map (kept_of R current_params) (batches (gh s))) ++
+    (if pc_final (pc (be s)) then flat (fbatch (gh s)) else []) /\
+  dropped (gh s) ++ dropping R current_params (pc (be s)) =
+    flat_map (dropped_of R current_params) (batches (gh s)) /\
+  fault (be s) = false.
+Proof. exact (fun R rlen progs0 s Hl Hr => current_exactly_once eq_refl eq_refl R rlen progs0 s Hl eq_refl Hr). Qed.
+Print Assumptions C16_current_exactly_once.
+
+Theorem C16_current_roll : forall (A : Type) (c : cfg) (now : Z) (ops : list (sop_t A)),
+  StronglySorted Z.lt (map fst (files_in_order (lf_run c (@lf_new A now) ops))).
+Proof. exact (fun A => names_increasing A eq_refl). Qed.
+Print Assumptions C16_current_roll.
+
+(* ------------------------------------------------------------------ non-vacuity *)
+(* LogFile: three files, a short write, a same-second roll request that is refused *)
+Definition ex_ops : list (sop_t nat) :=
+  [SAppend [1;2;3]%nat [(2, false)]%nat 1000 1000; SAppend [4;5]%nat [] 1001 1001; SRoll 1001;
+   SAppend [6]%nat [] 1001 1001; SFlush; SAppend [7;8;9;10]%nat [] 1005 1005].
+Example C16_files_nonvacuous :
+  files_in_order (lf_run (mkCfg 4 3 1024) (lf_new 1000) ex_ops) =
+    [(1000, [1;2;3;4;5]%nat); (1001, [6;7;8;9;10]%nat); (1005, [])] /\
+  forallb (fun o => negb (op_error o)) ex_ops = true /\
+  snd (roll 1001 (lf_run (mkCfg 4 3 1024) (lf_new 1000) (firstn 1 ex_ops))) = true /\
+  snd (roll 1001 (lf_run (mkCfg 4 3 1024) (lf_new 1000) (firstn 2 ex_ops))) = false.
+Proof. vm_compute. repeat split; reflexivity. Qed.
+
+(* a stream error: the chunk is a strict prefix, and is still in the right place *)
+Example C16_stream_error_nonvacuous :
+  af_loop [(2, false); (1, true)]%nat [1;2;3;4;5]%nat = ([1;2;3]%nat, 2%nat, true).
 Proof. reflexivity. Qed.
+
+(* AsyncLogging, repaired shape: the F-8 schedule with the drain's two further steps is a run; stop()
+   returns (the hypothesis of C16_stop_flushes is inhabited); both records are written, in order *)
+Example C16_stop_flushes_nonvacuous :
+  match run nat f8_rlen (with_drain true current_params) (init f8_progs) f8_sched_drain with
+  | Some s => joined (gh s) = true /\ mark (gh s) = Some 2%nat /\ hist (gh s) = [1; 2]%nat /\
+              written_of (out (gh s)) = [1; 2]%nat /\ per_thread 0 (gh s) = [1; 2]%nat /\
+              pc (be s) = PDone /\ last (out (gh s)) OFlush = OFlush /\ length (out (gh s)) = 4%nat
+  | None => False
+  end.
+Proof. vm_compute. repeat split; reflexivity. Qed.
+
+(* the same schedule without the drain is a run of the pinned shape (the refutation is not vacuous):
+   record 2 stays in currentBuffer_ *)
+Example C16_f8_witness_run :
+  match run nat f8_rlen (with_drain false current_params) (init f8_progs) f8_sched with
+  | Some s => joined (gh s) = true /\ hist (gh s) = [1; 2]%nat /\ written_of (out (gh s)) = [1]%nat /\
+              recs (cur (sh s)) = [2]%nat
+  | None => False
+  end.
+Proof. vm_compute. repeat split; reflexivity. Qed.
+
+(* the valve: a small shape (capacity 10, threshold 3, keep 2): three threads, five buffers queued while
+   the back-end waits; the batch of 5 > 3 is announced, buffers 3..5 are erased, 1..2 written *)
+Definition ex_P : params := mkParams true true 10 3 2 2.
+Definition ex_valve_progs : list (list nat) := [[11; 12]; [21; 22]; [31]]%nat.
+Definition ex_valve_sched : list label :=
+  [LBack; LBack; LApp 0; LApp 1; LApp 2; LApp 0; LApp 1; LBack; LBack; LBack; LBack; LBack; LBack;
+   LStop; LBack; LBack; LBack; LBack; LBack; LBack; LBack; LJoin].
+Example C16_valve_nonvacuous :
+  params_ok ex_P = true /\
+  match run nat (fun _ => 6) ex_P (init ex_valve_progs) ex_valve_sched with
+  | Some s => joined (gh s) = true /\
+              hist (gh s) = [11; 21; 31; 12; 22]%nat /\
+              per_thread 1 (gh s) = [21; 22]%nat /\
+              map (fun e => match e with OStderr n => n | OFileAnn n => (100 + n)%nat | OBuf _ => 200%nat | OFlush => 300%nat end)
+                  (out (gh s)) = [3; 103; 200; 200; 300; 200; 300; 200; 300]%nat /\
+              written_of (out (gh s)) = [11; 21]%nat /\
+              flat (dropped (gh s)) = [31; 12; 22]%nat /\
+              fault (be s) = false
+  | None => False
+  end.
+Proof. vm_compute. repeat split; reflexivity. Qed.
